@@ -77,8 +77,9 @@ func All() map[string]orch.PropertySpec {
 			Rule: "TLC exhaustively checks the bit forcing and formatting of spec/IdGen.tla over the two affected octets; a history of 20 000 (quick) / 150 000 (thorough) message constructions across 3 kinds (+ the signing path), 4 SP instances and 8 goroutines is recorded with the octets drawn; the history is sorted and TLC checks on every line: identifier = '_' + canonical form of the draw with forced bits, legal xs:ID, exactly one matching draw, strictly greater than its predecessor (pairwise distinctness); distinct = distinct identifiers; non-trivial = every event",
 			Parts: []orch.Part{{Family: fam.IdGen{}, Monitors: []string{"C18"}}}},
 		"C17": {ID: "C17", Level: "model_checking", Assumptions: append([]string{"interleavings are controlled at the six observation points of SigningContext() (build tag verif); code between two points runs atomically with respect to the other controlled goroutines"}, trusted...),
-			Rule: "TLC explores every interleaving of N goroutines x K calls of the PlusCal algorithm spec/SigningCtx.tla (quick 2x2, thorough 3x1) with mutual-exclusion, race-freedom, configured-before-visible and termination properties, and emits every complete schedule; each schedule is forced through the real SigningContext() with blocking gates while the goroutines run real signing operations (SigningContext, signed AuthnRequest / LogoutRequest / LogoutResponse); every result is checked against what the call returns alone (signature analysed independently); the observed event sequence is validated step by step against the algorithm by TLC; distinct = distinct schedules; non-trivial = every schedule",
-			Parts: []orch.Part{{Family: fam.SigningCtx{}, Monitors: []string{"C17"}}}},
+			Rule: "(a) TLC explores every interleaving of N goroutines x K calls of the PlusCal algorithm spec/SigningCtx.tla (quick 2x2, thorough 3x1) with mutual-exclusion, race-freedom, configured-before-visible and termination properties, and emits every complete schedule; each schedule is forced through the real SigningContext() with blocking gates while the goroutines run real signing operations (SigningContext, signed AuthnRequest / LogoutRequest / LogoutResponse); every result is checked against what the call returns alone (signature analysed independently); the observed event sequence is validated step by step against the algorithm by TLC; (b) every operation history of length <= 3 (quick) / 4 (thorough) over 10 public operations plus mutation of the previous result (spec/SpLife.tla) is replayed on one SP: configuration fingerprint before/after each call, result compared with the same call on a fresh SP; (c) a race-detector build runs sleep-slot-steered first-use schedules and an ungated mix of all public operations; distinct = distinct schedules / histories; non-trivial = every one",
+			Custom: []orch.CustomStep{orch.RaceStep},
+			Parts:  []orch.Part{{Family: fam.SigningCtx{}, Monitors: []string{"C17"}}, {Family: fam.SpLife{}, Monitors: []string{"C17"}}}},
 	}
 }
 
